@@ -38,9 +38,17 @@ VALUE_WITNESSES = {
 }
 # write-once constants created by lazy_static (cfg uuid): allowed by name, with reason
 ALLOWED_STATICS = {
-    "mapping::ProguardMapping<'s>::uuid::NAMESPACE":
+    "mapping::ProguardMapping<'_>::uuid::NAMESPACE":
         "lazy_static write-once constant: initialiser is a constant expression (checked by C18.2/C18.3)",
 }
+
+
+def nolt(path):
+    """an item path with its lifetime names erased (`<'s>` and `<'src>` are the same item)"""
+    import re as _re
+    return _re.sub(r"'\w+", "'_", path).replace("::<", "<")
+
+
 NEG_CONTROLS = ["BadCell", "BadRc"]  # must be rejected by the type checker
 WALK_CONTROLS = {"BadCell": "UnsafeCell", "BadRc": "Rc", "BadMutexMemo": "UnsafeCell",
                  "BadAtomicCounter": "UnsafeCell", "BadNested": "UnsafeCell"}
@@ -212,8 +220,8 @@ def run(ctx, rep):
         items = fx.items["proguard"]
         for s in items["statics"]:
             import effects as E_
-            allowed = ALLOWED_STATICS.get(s["path"])
-            inner_of_allowed = s["exp"] and any(k in s["path"].replace("::<", "<") for k in ALLOWED_STATICS)
+            allowed = ALLOWED_STATICS.get(nolt(s["path"]))
+            inner_of_allowed = s["exp"] and any(k in nolt(s["path"]) for k in ALLOWED_STATICS)
             if not (allowed or inner_of_allowed) and not s["mut"] and not s["thread_local"] and not s["freeze"]:
                 # role instead of name: a write-once constant (pure initialiser, no interior mutability in the value)
                 allowed = E_.write_once_static(fx, "proguard::" + s["path"] if not s["path"].startswith("proguard::") else s["path"], s["ty"])
@@ -232,7 +240,7 @@ def run(ctx, rep):
                 rep.violation("C20.3" + sfx, "C20.3/unsafe-block/%s" % p, loc=F.short_file(ub["sp"]),
                               found="unsafe block", expected="no unsafe code (borrowck is the proof of isolation)")
             for n in F.walk(b["body"]):
-                if n.get("k") in ("Static", "ThreadLocal") and not any(k in n["path"].replace("::<", "<") for k in ALLOWED_STATICS):
+                if n.get("k") in ("Static", "ThreadLocal") and not any(k in nolt(n["path"]) for k in ALLOWED_STATICS):
                     # reading a static is fine only if the static itself passed above; thread-locals never
                     if n["k"] == "ThreadLocal":
                         rep.violation("C20.3" + sfx, "C20.3/tls-use/%s" % p, loc=F.loc(n), found=n["path"],
